@@ -47,7 +47,10 @@ class C03(Prop):
                   "always returns H(feed) for an arbitrary H, sequentially. Under races (C03_get_hash_stable_under_races): for any number of threads, any lists of "
                   "get_hash / clone-then-get_hash calls on one shared lazily hashed key and every sequentially consistent schedule of the six atomic steps "
                   "(yield sites 301-306), every call returns the key's true hash. The model's sort is proved to be the unique stable sort by label name. "
-                  "The code as found is refuted (C03_eq_iff_cmp_Eq_refuted_before_fix). Each run compares ==, cmp, the recorded Hasher call "
+                  "==, cmp and the feed of built keys are those of the content whatever the memo state and construction of either operand "
+                  "(C03_observations_ignore_memo_and_construction, C03_twins_compare_alike). "
+                  "The code as found is refuted (C03_eq_iff_cmp_Eq_refuted_before_fix). Each run compares == and cmp (observed as built before any hash is "
+                  "forced, on differently built twins, with get_hash() forced on one operand and on both), the recorded Hasher call "
                   "sequence, the `hashed` flag and get_hash() consistency/equality classes of the real Key against the model on generated key groups, and replays "
                   "generated schedules of 2-3 racing threads on the real get_hash/Clone through the yield points against the interleaving model.")
     level_note = ("The race theorem is about sequentially consistent interleavings at the granularity of the two loads/two stores of get_hash and the two "
@@ -433,6 +436,8 @@ class C03(Prop):
                 out["c"] = t[1].split("/")
             elif t[0] == "x":
                 out["aux"] = int(t[1])
+            elif t[0] in ("xe", "xc"):
+                out[t[0]] = [m.split("/") for m in t[1:]]
         return out
 
     # ------------------------------------------------------------------ Coq side
@@ -468,9 +473,10 @@ class C03(Prop):
                     evs.append("HB 4096%N")    # a Hasher method the model never uses: cannot match
             ks.append("{| o_hashed0 := %s; o_ghok := %s; o_class := %s; o_feed := %s |}" % (
                 cq_bool(k["hashed0"]), cq_bool(k["ghok"]), cq_N(k["cls"]), cq_list(evs)))
-        e = cq_list([cq_list([cq_bool(ch == "1") for ch in row]) for row in out["e"]])
-        cm = cq_list([cq_list([{"<": "Lt", "=": "Eq", ">": "Gt"}[ch] for ch in row]) for row in out["c"]])
-        return "(OOk %s %s %s %s)" % (cq_list(ks), e, cm, cq_bool(out["aux"]))
+        em = lambda m: cq_list([cq_list([cq_bool(ch == "1") for ch in row]) for row in m])
+        cmm = lambda m: cq_list([cq_list([{"<": "Lt", "=": "Eq", ">": "Gt"}[ch] for ch in row]) for row in m])
+        return "(OOk %s %s %s %s %s %s)" % (cq_list(ks), em(out["e"]), cmm(out["c"]), cq_bool(out["aux"]),
+                                            cq_list([em(m) for m in out.get("xe", [])]), cq_list([cmm(m) for m in out.get("xc", [])]))
 
     def signature(self, c, out):
         seen = set()
